@@ -14,6 +14,13 @@
 //!                                             GraphBase, Data, DataMap, DataMapMut only)
 //!   dmap <own|ref|mut|frozen|rev> => nw=<id:w|x,..> ew=<id:w|x,..>   DataMap::node_weight / edge_weight through the
 //!                                             delegation, for the live ids and one dead id each
+//!   law base <op> <cov>       => ok | VIOLATED <why>   the iterator laws (crate::iterlaws) on every trait-level iterator of `&g`
+//!                                             after every mutating call (fresh, after 1 and 3 items, from both ends)
+//!   law view <stack> <cov>    => ok | VIOLATED <why>   the same on every adaptor stack that is dumped
+//!   law inherent <type> <cov> => ok | VIOLATED <why>   the same on the inherent iterators of the base type that are not
+//!                                             the trait-level ones (every third step and at the final state)
+//!   law std <type>            => ok | VIOLATED <why>   clone_from / clone / Default / Debug laws at the final state
+//!                                             (<cov>: per iterator the law sets its TYPE admits: I/D/X, `-` = none)
 //! <stack> is a comma list, innermost adaptor first: `nf:45,rev` = Reversed(&NodeFiltered(&g, mask 45)).
 //!
 //! TABLE = space separated `key=value`, `na` where the (type or adaptor) does not implement the trait
@@ -285,6 +292,353 @@ impl<G: GetAdjacencyMatrix> YAdj for Wr<G> where G::NodeId: NId {
 pub trait NAdj { fn t_adj<Q>(&self, _qs: &[Q]) -> String { "na".to_string() } }
 impl<G> NAdj for &Wr<G> {}
 
+// ------------------------------------------------------------------------------------------------
+// iterator laws (wave 6): every trait-level iterator of every view whose iterator type is `Clone`
+//
+//   law <base|view> <name> <coverage>  => ok | VIOLATED <iterator>[ at node q]: <which law, with the items>
+//
+// <coverage> lists per trait-level iterator which law sets the compiler admitted for this view's iterator TYPE
+// (`I` = Iterator + Clone, `D` = DoubleEndedIterator, `X` = ExactSizeIterator; `-` = trait not implemented or the
+// iterator type is not `Clone`).  The items are compared as the same strings the table prints (node id; `id:weight`;
+// `edge id/source/target/weight`), so an item reached through `nth` / `skip` / `step_by` / `nth_back` must carry the
+// same `EdgeRef::id()` it has under plain `next`.
+
+/// `Map` that forwards EVERY consuming method to the wrapped iterator (std's `Map` reaches `nth`, `nth_back`,
+/// `count`, `last` of the inner iterator only through `next`): the laws then exercise the overrides of the inner one
+#[derive(Clone)]
+pub struct Conv<I, F>(pub I, pub F);
+impl<I: Iterator, F: Fn(I::Item) -> String> Iterator for Conv<I, F> {
+    type Item = String;
+    fn next(&mut self) -> Option<String> { self.0.next().map(&self.1) }
+    fn size_hint(&self) -> (usize, Option<usize>) { self.0.size_hint() }
+    fn nth(&mut self, n: usize) -> Option<String> { self.0.nth(n).map(&self.1) }
+    fn count(self) -> usize { self.0.count() }
+    fn last(self) -> Option<String> { let f = self.1; self.0.last().map(f) }
+    fn fold<B, H: FnMut(B, String) -> B>(self, init: B, mut h: H) -> B {
+        let f = self.1;
+        self.0.fold(init, move |acc, x| h(acc, f(x)))
+    }
+}
+impl<I: DoubleEndedIterator, F: Fn(I::Item) -> String> DoubleEndedIterator for Conv<I, F> {
+    fn next_back(&mut self) -> Option<String> { self.0.next_back().map(&self.1) }
+    fn nth_back(&mut self, n: usize) -> Option<String> { self.0.nth_back(n).map(&self.1) }
+    fn rfold<B, H: FnMut(B, String) -> B>(self, init: B, mut h: H) -> B {
+        let f = self.1;
+        self.0.rfold(init, move |acc, x| h(acc, f(x)))
+    }
+}
+impl<I: ExactSizeIterator, F: Fn(I::Item) -> String> ExactSizeIterator for Conv<I, F> {
+    fn len(&self) -> usize { self.0.len() }
+}
+
+/// Type erasure: the law functions of `crate::iterlaws` are instantiated ONCE (for `BA`), not once per iterator type of
+/// every adaptor stack; per concrete iterator only these forwarding shims are compiled.  Every consuming method is
+/// forwarded to the concrete iterator, so its overrides are what the laws exercise.
+pub trait DynAll<'a> {
+    fn d_next(&mut self) -> Option<String>;
+    fn d_size_hint(&self) -> (usize, Option<usize>);
+    fn d_nth(&mut self, n: usize) -> Option<String>;
+    fn d_count(self: Box<Self>) -> usize;
+    fn d_last(self: Box<Self>) -> Option<String>;
+    fn d_fold(self: Box<Self>, f: &mut dyn FnMut(String));
+    fn d_next_back(&mut self) -> Option<String>;
+    fn d_nth_back(&mut self, n: usize) -> Option<String>;
+    fn d_rfold(self: Box<Self>, f: &mut dyn FnMut(String));
+    fn d_len(&self) -> usize;
+    fn d_clone(&self) -> Box<dyn DynAll<'a> + 'a>;
+}
+pub struct AsI<I>(pub I);
+pub struct AsD<I>(pub I);
+pub struct AsX<I>(pub I);
+macro_rules! dyn_fwd {
+    () => {
+        fn d_next(&mut self) -> Option<String> { self.0.next() }
+        fn d_size_hint(&self) -> (usize, Option<usize>) { self.0.size_hint() }
+        fn d_nth(&mut self, n: usize) -> Option<String> { self.0.nth(n) }
+        fn d_count(self: Box<Self>) -> usize { self.0.count() }
+        fn d_last(self: Box<Self>) -> Option<String> { self.0.last() }
+        fn d_fold(self: Box<Self>, f: &mut dyn FnMut(String)) { self.0.fold((), |_, x| f(x)) }
+    };
+}
+impl<'a, I: Iterator<Item = String> + Clone + 'a> DynAll<'a> for AsI<I> {
+    dyn_fwd!();
+    fn d_next_back(&mut self) -> Option<String> { unreachable!() }
+    fn d_nth_back(&mut self, _n: usize) -> Option<String> { unreachable!() }
+    fn d_rfold(self: Box<Self>, _f: &mut dyn FnMut(String)) { unreachable!() }
+    fn d_len(&self) -> usize { unreachable!() }
+    fn d_clone(&self) -> Box<dyn DynAll<'a> + 'a> { Box::new(AsI(self.0.clone())) }
+}
+impl<'a, I: DoubleEndedIterator<Item = String> + Clone + 'a> DynAll<'a> for AsD<I> {
+    dyn_fwd!();
+    fn d_next_back(&mut self) -> Option<String> { self.0.next_back() }
+    fn d_nth_back(&mut self, n: usize) -> Option<String> { self.0.nth_back(n) }
+    fn d_rfold(self: Box<Self>, f: &mut dyn FnMut(String)) { self.0.rfold((), |_, x| f(x)) }
+    fn d_len(&self) -> usize { unreachable!() }
+    fn d_clone(&self) -> Box<dyn DynAll<'a> + 'a> { Box::new(AsD(self.0.clone())) }
+}
+impl<'a, I: ExactSizeIterator<Item = String> + Clone + 'a> DynAll<'a> for AsX<I> {
+    dyn_fwd!();
+    fn d_next_back(&mut self) -> Option<String> { unreachable!() }
+    fn d_nth_back(&mut self, _n: usize) -> Option<String> { unreachable!() }
+    fn d_rfold(self: Box<Self>, _f: &mut dyn FnMut(String)) { unreachable!() }
+    fn d_len(&self) -> usize { self.0.len() }
+    fn d_clone(&self) -> Box<dyn DynAll<'a> + 'a> { Box::new(AsX(self.0.clone())) }
+}
+pub struct BA<'a>(pub Box<dyn DynAll<'a> + 'a>);
+impl<'a> Clone for BA<'a> {
+    fn clone(&self) -> Self { BA(self.0.d_clone()) }
+}
+impl<'a> Iterator for BA<'a> {
+    type Item = String;
+    fn next(&mut self) -> Option<String> { self.0.d_next() }
+    fn size_hint(&self) -> (usize, Option<usize>) { self.0.d_size_hint() }
+    fn nth(&mut self, n: usize) -> Option<String> { self.0.d_nth(n) }
+    fn count(self) -> usize { self.0.d_count() }
+    fn last(self) -> Option<String> { self.0.d_last() }
+    fn fold<B, H: FnMut(B, String) -> B>(self, init: B, mut h: H) -> B {
+        let mut acc = Some(init);
+        self.0.d_fold(&mut |x| { let a = acc.take().unwrap(); acc = Some(h(a, x)); });
+        acc.unwrap()
+    }
+}
+impl<'a> DoubleEndedIterator for BA<'a> {
+    fn next_back(&mut self) -> Option<String> { self.0.d_next_back() }
+    fn nth_back(&mut self, n: usize) -> Option<String> { self.0.d_nth_back(n) }
+    fn rfold<B, H: FnMut(B, String) -> B>(self, init: B, mut h: H) -> B {
+        let mut acc = Some(init);
+        self.0.d_rfold(&mut |x| { let a = acc.take().unwrap(); acc = Some(h(a, x)); });
+        acc.unwrap()
+    }
+}
+impl<'a> ExactSizeIterator for BA<'a> {
+    fn len(&self) -> usize { self.0.d_len() }
+}
+
+/// the laws on the fresh iterator and on the iterator after 1 and after 3 items (mid-iteration states)
+#[allow(non_snake_case)]
+fn run_I<'a, I: Iterator<Item = String> + Clone + 'a>(it: I) -> Option<String> {
+    use crate::iterlaws::iter_laws;
+    let it = BA(Box::new(AsI(it)));
+    if let Some(e) = iter_laws(it.clone()) { return Some(e); }
+    let mut m = it.clone();
+    m.next();
+    if let Some(e) = iter_laws(m.clone()) { return Some(format!("after 1 x next: {}", e)); }
+    m.next();
+    m.next();
+    iter_laws(m).map(|e| format!("after 3 x next: {}", e))
+}
+#[allow(non_snake_case)]
+fn run_D<'a, I: DoubleEndedIterator<Item = String> + Clone + 'a>(it: I) -> Option<String> {
+    use crate::iterlaws::iter_laws_de;
+    let it = BA(Box::new(AsD(it)));
+    if let Some(e) = iter_laws_de(it.clone()) { return Some(e); }
+    let mut m = it.clone();
+    m.next();
+    if let Some(e) = iter_laws_de(m.clone()) { return Some(format!("after 1 x next: {}", e)); }
+    m.next_back();
+    if let Some(e) = iter_laws_de(m.clone()) { return Some(format!("after next, next_back: {}", e)); }
+    let mut b = it;
+    b.next_back();
+    iter_laws_de(b).map(|e| format!("after 1 x next_back: {}", e))
+}
+#[allow(non_snake_case)]
+fn run_X<'a, I: ExactSizeIterator<Item = String> + Clone + 'a>(it: I) -> Option<String> {
+    use crate::iterlaws::iter_laws_exact;
+    let it = BA(Box::new(AsX(it)));
+    if let Some(e) = iter_laws_exact(it.clone()) { return Some(e); }
+    let mut m = it;
+    m.next();
+    iter_laws_exact(m).map(|e| format!("after 1 x next: {}", e))
+}
+
+/// one (trait-level iterator, law set) pair, decided per concrete type by autoref specialisation like the table
+macro_rules! lawt {
+    ($Y:ident, $N:ident, $m:ident, $Tr:ident, $It:ident, $IB:ident, $run:ident, $what:expr, $node:expr, [$($extra:tt)*],
+     |$g:ident, $q:ident, $sym:ident| $mk:expr) => {
+        pub trait $Y { type Q; fn $m(&self, qs: &[Self::Q], sym: bool) -> String; }
+        impl<G: $Tr> $Y for Wr<G> where G::NodeId: NId, G::$It: Clone + $IB, $($extra)* {
+            type Q = G::NodeId;
+            #[allow(unused_variables)]
+            fn $m(&self, qs: &[G::NodeId], $sym: bool) -> String {
+                let $g: G = self.0;
+                let targets: Vec<Option<G::NodeId>> = if $node { qs.iter().map(|q| Some(*q)).collect() } else { vec![None] };
+                for $q in targets {
+                    let at = match $q { Some(n) => format!(" at node {}", n.n()), None => String::new() };
+                    match catch(|| $run($mk)) {
+                        None => return format!("VIOLATED {}{}: a panic while the iterator laws were checked", $what, at),
+                        Some(Some(e)) => return format!("VIOLATED {}{}: {}", $what, at, e.replace('\n', " ")),
+                        Some(None) => {}
+                    }
+                }
+                "ok".to_string()
+            }
+        }
+        pub trait $N { fn $m<Q>(&self, _qs: &[Q], _sym: bool) -> String { "na".to_string() } }
+        impl<G> $N for &Wr<G> {}
+    };
+}
+macro_rules! lawt3 {
+    ([$Y1:ident $N1:ident $m1:ident] [$Y2:ident $N2:ident $m2:ident] [$Y3:ident $N3:ident $m3:ident],
+     $Tr:ident, $It:ident, $what:expr, $node:expr, [$($extra:tt)*], |$g:ident, $q:ident, $sym:ident| $mk:expr) => {
+        lawt!($Y1, $N1, $m1, $Tr, $It, Iterator, run_I, $what, $node, [$($extra)*], |$g, $q, $sym| $mk);
+        lawt!($Y2, $N2, $m2, $Tr, $It, DoubleEndedIterator, run_D, $what, $node, [$($extra)*], |$g, $q, $sym| $mk);
+        lawt!($Y3, $N3, $m3, $Tr, $It, ExactSizeIterator, run_X, $what, $node, [$($extra)*], |$g, $q, $sym| $mk);
+    };
+}
+lawt3!([YLIdsI NLIdsI l_ids_i] [YLIdsD NLIdsD l_ids_d] [YLIdsX NLIdsX l_ids_x],
+    IntoNodeIdentifiers, NodeIdentifiers, "node_identifiers", false, [],
+    |g, q, sym| Conv(g.node_identifiers(), |n: G::NodeId| n.n().to_string()));
+lawt3!([YLRefsI NLRefsI l_refs_i] [YLRefsD NLRefsD l_refs_d] [YLRefsX NLRefsX l_refs_x],
+    IntoNodeReferences, NodeReferences, "node_references", false, [G::NodeWeight: Wt],
+    |g, q, sym| Conv(g.node_references(), |r: G::NodeRef| format!("{}:{}", r.id().n(), r.weight().w())));
+lawt3!([YLErI NLErI l_er_i] [YLErD NLErD l_er_d] [YLErX NLErX l_er_x],
+    IntoEdgeReferences, EdgeReferences, "edge_references", false, [G::EdgeId: EId, G::EdgeWeight: Wt],
+    |g, q, sym| Conv(g.edge_references(), move |e: G::EdgeRef| eref_s(e, sym)));
+lawt3!([YLNbrI NLNbrI l_nbr_i] [YLNbrD NLNbrD l_nbr_d] [YLNbrX NLNbrX l_nbr_x],
+    IntoNeighbors, Neighbors, "neighbors", true, [],
+    |g, q, sym| Conv(g.neighbors(q.unwrap()), |n: G::NodeId| n.n().to_string()));
+lawt3!([YLNboI NLNboI l_nbo_i] [YLNboD NLNboD l_nbo_d] [YLNboX NLNboX l_nbo_x],
+    IntoNeighborsDirected, NeighborsDirected, "neighbors_directed(Outgoing)", true, [],
+    |g, q, sym| Conv(g.neighbors_directed(q.unwrap(), Outgoing), |n: G::NodeId| n.n().to_string()));
+lawt3!([YLNbiI NLNbiI l_nbi_i] [YLNbiD NLNbiD l_nbi_d] [YLNbiX NLNbiX l_nbi_x],
+    IntoNeighborsDirected, NeighborsDirected, "neighbors_directed(Incoming)", true, [],
+    |g, q, sym| Conv(g.neighbors_directed(q.unwrap(), Incoming), |n: G::NodeId| n.n().to_string()));
+lawt3!([YLEdI NLEdI l_ed_i] [YLEdD NLEdD l_ed_d] [YLEdX NLEdX l_ed_x],
+    IntoEdges, Edges, "edges", true, [G::EdgeId: EId, G::EdgeWeight: Wt],
+    |g, q, sym| Conv(g.edges(q.unwrap()), move |e: G::EdgeRef| eref_s(e, sym)));
+lawt3!([YLEdoI NLEdoI l_edo_i] [YLEdoD NLEdoD l_edo_d] [YLEdoX NLEdoX l_edo_x],
+    IntoEdgesDirected, EdgesDirected, "edges_directed(Outgoing)", true, [G::EdgeId: EId, G::EdgeWeight: Wt],
+    |g, q, sym| Conv(g.edges_directed(q.unwrap(), Outgoing), move |e: G::EdgeRef| eref_s(e, sym)));
+lawt3!([YLEdiI NLEdiI l_edi_i] [YLEdiD NLEdiD l_edi_d] [YLEdiX NLEdiX l_edi_x],
+    IntoEdgesDirected, EdgesDirected, "edges_directed(Incoming)", true, [G::EdgeId: EId, G::EdgeWeight: Wt],
+    |g, q, sym| Conv(g.edges_directed(q.unwrap(), Incoming), move |e: G::EdgeRef| eref_s(e, sym)));
+
+/// `(coverage, verdict)` of the iterator laws over all trait-level iterators of one view
+macro_rules! laws {
+    ($g:expr, $qs:expr, $sym:expr) => {{
+        let w = Wr($g);
+        let qs = $qs;
+        let sym: bool = $sym;
+        let res: Vec<(String, [String; 3])> = vec![
+            ("ids".to_string(), [(&w).l_ids_i(qs, sym), (&w).l_ids_d(qs, sym), (&w).l_ids_x(qs, sym)]),
+            ("refs".to_string(), [(&w).l_refs_i(qs, sym), (&w).l_refs_d(qs, sym), (&w).l_refs_x(qs, sym)]),
+            ("er".to_string(), [(&w).l_er_i(qs, sym), (&w).l_er_d(qs, sym), (&w).l_er_x(qs, sym)]),
+            ("nbr".to_string(), [(&w).l_nbr_i(qs, sym), (&w).l_nbr_d(qs, sym), (&w).l_nbr_x(qs, sym)]),
+            ("nbo".to_string(), [(&w).l_nbo_i(qs, sym), (&w).l_nbo_d(qs, sym), (&w).l_nbo_x(qs, sym)]),
+            ("nbi".to_string(), [(&w).l_nbi_i(qs, sym), (&w).l_nbi_d(qs, sym), (&w).l_nbi_x(qs, sym)]),
+            ("ed".to_string(), [(&w).l_ed_i(qs, sym), (&w).l_ed_d(qs, sym), (&w).l_ed_x(qs, sym)]),
+            ("edo".to_string(), [(&w).l_edo_i(qs, sym), (&w).l_edo_d(qs, sym), (&w).l_edo_x(qs, sym)]),
+            ("edi".to_string(), [(&w).l_edi_i(qs, sym), (&w).l_edi_d(qs, sym), (&w).l_edi_x(qs, sym)]),
+        ];
+        law_summary(&res)
+    }};
+}
+
+fn law_summary(res: &[(String, [String; 3])]) -> (String, String) {
+    let mut cov: Vec<String> = Vec::new();
+    let mut bad: Option<String> = None;
+    for (k, r) in res {
+        let mut c = String::new();
+        for (i, tag) in ["I", "D", "X"].iter().enumerate() {
+            if r[i] != "na" {
+                c.push_str(tag);
+                if r[i] != "ok" && bad.is_none() {
+                    bad = Some(r[i].clone());
+                }
+            }
+        }
+        cov.push(format!("{}:{}", k, if c.is_empty() { "-" } else { &c }));
+    }
+    (cov.join(","), bad.unwrap_or_else(|| "ok".to_string()))
+}
+
+// ---- laws of iterator VALUES (the inherent iterators of the base types), by autoref specialisation on the iterator type
+pub fn conv<I: Iterator, F: Fn(I::Item) -> String>(i: I, f: F) -> Conv<I, F> { Conv(i, f) }
+fn it_verdict(r: Option<Option<String>>) -> String {
+    match r {
+        None => "VIOLATED a panic while the iterator laws were checked".to_string(),
+        Some(Some(e)) => format!("VIOLATED {}", e.replace('\n', " ")),
+        Some(None) => "ok".to_string(),
+    }
+}
+pub trait YItI { fn li(&self) -> String; }
+impl<I: Iterator<Item = String> + Clone> YItI for Wr<I> { fn li(&self) -> String { it_verdict(catch(|| run_I(self.0.clone()))) } }
+pub trait NItI { fn li(&self) -> String { "na".to_string() } }
+impl<I> NItI for &Wr<I> {}
+pub trait YItD { fn ld(&self) -> String; }
+impl<I: DoubleEndedIterator<Item = String> + Clone> YItD for Wr<I> { fn ld(&self) -> String { it_verdict(catch(|| run_D(self.0.clone()))) } }
+pub trait NItD { fn ld(&self) -> String { "na".to_string() } }
+impl<I> NItD for &Wr<I> {}
+pub trait YItX { fn lx(&self) -> String; }
+impl<I: ExactSizeIterator<Item = String> + Clone> YItX for Wr<I> { fn lx(&self) -> String { it_verdict(catch(|| run_X(self.0.clone()))) } }
+pub trait NItX { fn lx(&self) -> String { "na".to_string() } }
+impl<I> NItX for &Wr<I> {}
+
+/// laws of one iterator value; the result is appended to `$res` (merged per name: the worst verdict is kept)
+macro_rules! li {
+    ($res:expr, $name:expr, $it:expr) => {{
+        let w = Wr($it);
+        let name: String = $name.to_string();
+        let fix = |v: String| if v.starts_with("VIOLATED ") { format!("VIOLATED {}: {}", name, &v[9..]) } else { v };
+        let r = [fix((&w).li()), fix((&w).ld()), fix((&w).lx())];
+        let key: String = name.split('(').next().unwrap_or("?").to_string();
+        if let Some(old) = $res.iter_mut().find(|x: &&mut (String, [String; 3])| x.0 == key) {
+            for i in 0..3 {
+                if old.1[i] == "ok" || old.1[i] == "na" { old.1[i] = r[i].clone(); }
+            }
+        } else {
+            $res.push((key, r));
+        }
+    }};
+}
+
+/// `Debug` (`{:?}` and `{:#?}`) of a value, `na` where the type has none, `panic` if it panicked
+pub trait YDbg { fn dbg(&self) -> String; }
+impl<T: core::fmt::Debug> YDbg for Wr<T> {
+    fn dbg(&self) -> String { guard(|| format!("{:?} {:#?}", self.0, self.0)) }
+}
+pub trait NDbg { fn dbg(&self) -> String { "na".to_string() } }
+impl<T> NDbg for &Wr<T> {}
+
+/// std-trait laws of a base type at the final state `$g`, with an arbitrary earlier state `$snap` of the same history:
+/// `a.clone_from(&g)` and `g.clone()` show the table (and `Debug` text) of `g`; `Debug` never panics;
+/// `Default::default()` shows the table of the empty constructor `$new`
+macro_rules! std_laws {
+    ($ctx:expr, $tag:expr, $g:expr, $snap:expr, $qs:expr, $qe:expr, $sym:expr, $def:expr, $new:expr) => {{
+        let mut bad: Vec<String> = Vec::new();
+        let want = table!(&$g, $qs, $qe, $sym);
+        let wdbg = (&Wr(&$g)).dbg();
+        if wdbg == "panic" { bad.push("Debug of the graph panicked".to_string()); }
+        match catch(|| { let mut a = $snap.clone(); a.clone_from(&$g); (table!(&a, $qs, $qe, $sym), (&Wr(&a)).dbg()) }) {
+            None => bad.push("a.clone_from(&g) panicked".to_string()),
+            Some((t, d)) => {
+                if t != want { bad.push(format!("after a.clone_from(&g) (a = an earlier state) the visit table of a is [{}] but that of g is [{}]", t, want)); }
+                else if d != wdbg { bad.push(format!("after a.clone_from(&g) Debug of a is [{}] but that of g is [{}]", d, wdbg)); }
+            }
+        }
+        match catch(|| { let mut a = $g.clone(); a.clone_from(&$snap); let b = $snap.clone(); ((&Wr(&a)).dbg(), (&Wr(&b)).dbg(), a.node_count() == b.node_count()) }) {
+            None => bad.push("g.clone_from(&earlier) panicked".to_string()),
+            Some((d, e, c)) => { if d != e || !c { bad.push(format!("after a.clone_from(&earlier) (a = a clone of g) Debug of a is [{}] but that of earlier.clone() is [{}]", d, e)); } }
+        }
+        match catch(|| { let a = $g.clone(); (table!(&a, $qs, $qe, $sym), (&Wr(&a)).dbg()) }) {
+            None => bad.push("g.clone() panicked".to_string()),
+            Some((t, d)) => {
+                if t != want { bad.push(format!("the visit table of g.clone() is [{}] but that of g is [{}]", t, want)); }
+                else if d != wdbg { bad.push(format!("Debug of g.clone() is [{}] but that of g is [{}]", d, wdbg)); }
+            }
+        }
+        match catch(|| { let a = $def; let b = $new; (table!(&a, &$qs[..0], &$qe[..0], $sym), table!(&b, &$qs[..0], &$qe[..0], $sym), (&Wr(&a)).dbg(), (&Wr(&b)).dbg()) }) {
+            None => bad.push("Default::default() / the empty constructor panicked".to_string()),
+            Some((t, u, d, e)) => {
+                if t != u { bad.push(format!("the visit table of Default::default() is [{}] but that of the empty constructor is [{}]", t, u)); }
+                else if d != e { bad.push(format!("Debug of Default::default() is [{}] but that of the empty constructor is [{}]", d, e)); }
+            }
+        }
+        let verdict = match bad.first() { None => "ok".to_string(), Some(b) => format!("VIOLATED {}", b.replace('\n', " ")) };
+        $ctx.line(&format!("law std {}", $tag), &verdict);
+    }};
+}
+
 /// the complete table of one view (a `Copy` graph reference or adaptor value)
 macro_rules! table {
     ($g:expr, $qs:expr, $qe:expr, $sym:expr) => {{
@@ -415,6 +769,10 @@ fn params(rng: &mut Rng, qs_raw: &[usize], asym_ok: bool, idpred_ok: bool) -> Pa
 macro_rules! emit {
     ($ctx:expr, $qs:expr, $qe:expr, $sym:expr, $name:expr, $v:expr) => {
         $ctx.line(&format!("view {}", $name), &table!($v, $qs, $qe, $sym));
+        {
+            let (cov, verdict) = laws!($v, $qs, $sym);
+            $ctx.line(&format!("law view {} {}", $name, cov), &verdict);
+        }
     };
 }
 
@@ -675,6 +1033,7 @@ macro_rules! graph_like {
         fn $fname(ctx: &mut Ctx, rng: &mut Rng, case: u64) {
             ctx.raw(&format!("case {} {} {} {}", case, $tag, if $d { "d" } else { "u" }, dbg_word()));
             let mut g: $T<i32, i32, $Ty, u32> = $T::default();
+            let mut snap = g.clone();
             {
                 let qs: Vec<_> = g.node_indices().collect();
                 let qe: Vec<_> = g.edge_indices().collect();
@@ -746,8 +1105,31 @@ macro_rules! graph_like {
                 let qs: Vec<_> = g.node_indices().collect();
                 let qe: Vec<_> = g.edge_indices().collect();
                 ctx.line(&format!("base {}", op), &table!(&g, &qs[..], &qe[..], false));
+                {
+                    let (cov, verdict) = laws!(&g, &qs[..], false);
+                    ctx.line(&format!("law base {} {}", op.split(' ').next().unwrap_or("?"), cov), &verdict);
+                }
                 if step == mid && step + 1 != nops {
                     views!(ctx, rng, &g, &qs[..], &qe[..], false, $d, true, false);
+                    snap = g.clone();
+                }
+                if step % 3 == 0 || step + 1 == nops {
+                    // the inherent iterators (those that are not the trait-level ones)
+                    let mut res: Vec<(String, [String; 3])> = Vec::new();
+                    li!(res, "node_indices", conv(g.node_indices(), |n| n.index().to_string()));
+                    li!(res, "edge_indices", conv(g.edge_indices(), |e| e.index().to_string()));
+                    li!(res, "node_weights", conv(g.node_weights(), |w: &i32| w.to_string()));
+                    li!(res, "edge_weights", conv(g.edge_weights(), |w: &i32| w.to_string()));
+                    li!(res, "externals(Outgoing)", conv(g.externals(Outgoing), |n| n.index().to_string()));
+                    li!(res, "externals(Incoming)", conv(g.externals(Incoming), |n| n.index().to_string()));
+                    for a in qs.iter() {
+                        li!(res, format!("neighbors_undirected({})", a.index()), conv(g.neighbors_undirected(*a), |n| n.index().to_string()));
+                        for b in qs.iter() {
+                            li!(res, format!("edges_connecting({},{})", a.index(), b.index()), conv(g.edges_connecting(*a, *b), |e| eref_s(e, false)));
+                        }
+                    }
+                    let (cov, verdict) = law_summary(&res);
+                    ctx.line(&format!("law inherent {} {}", $tag, cov), &verdict);
                 }
             }
             let qs: Vec<_> = g.node_indices().collect();
@@ -755,6 +1137,7 @@ macro_rules! graph_like {
             views!(ctx, rng, &g, &qs[..], &qe[..], false, $d, true, true);
             frozen_owned!(ctx, g, &qs[..], &qe[..], false);
             mutview!(ctx, g, &qs[..], &qe[..], false);
+            std_laws!(ctx, $tag, g, snap, &qs[..], &qe[..], false, <$T<i32, i32, $Ty, u32>>::default(), <$T<i32, i32, $Ty, u32>>::with_capacity(0, 0));
             {
                 // DataMap: every index up to the bound (live and vacant) and one beyond
                 let qn: Vec<_> = (0..g.node_bound() + 1 + rng.below(2)).map(petgraph::graph::NodeIndex::new).collect();
@@ -774,6 +1157,7 @@ macro_rules! map_like {
         fn $fname(ctx: &mut Ctx, rng: &mut Rng, case: u64) {
             ctx.raw(&format!("case {} map {} {}", case, if $d { "d" } else { "u" }, dbg_word()));
             let mut g: GraphMap<u32, i32, $Ty> = GraphMap::new();
+            let mut snap = g.clone();
             let sym = !$d;
             {
                 let qs: Vec<u32> = g.nodes().collect();
@@ -827,8 +1211,20 @@ macro_rules! map_like {
                 let qs: Vec<u32> = g.nodes().collect();
                 let qe: Vec<(u32, u32)> = g.all_edges().map(|(a, b, _)| (a, b)).collect();
                 ctx.line(&format!("base {}", op), &table!(&g, &qs[..], &qe[..], sym));
+                {
+                    let (cov, verdict) = laws!(&g, &qs[..], sym);
+                    ctx.line(&format!("law base {} {}", op.split(' ').next().unwrap_or("?"), cov), &verdict);
+                }
                 if step == mid && step + 1 != nops && qs.iter().all(|q| *q < 16) {
                     views!(ctx, rng, &g, &qs[..], &qe[..], sym, $d, true, false);
+                }
+                if step == mid { snap = g.clone(); }
+                if step % 3 == 0 || step + 1 == nops {
+                    let mut res: Vec<(String, [String; 3])> = Vec::new();
+                    li!(res, "nodes", conv(g.nodes(), |n: u32| n.to_string()));
+                    li!(res, "all_edges", conv(g.all_edges(), |(a, b, w): (u32, u32, &i32)| format!("{}/{}/{}", a, b, w)));
+                    let (cov, verdict) = law_summary(&res);
+                    ctx.line(&format!("law inherent map {}", cov), &verdict);
                 }
             }
             let qs: Vec<u32> = g.nodes().collect();
@@ -839,6 +1235,7 @@ macro_rules! map_like {
             }
             frozen_owned!(ctx, g, &qs[..], &qe[..], sym);
             mutview!(ctx, g, &qs[..], &qe[..], sym);
+            std_laws!(ctx, "map", g, snap, &qs[..], &qe[..], sym, <GraphMap<u32, i32, $Ty>>::default(), <GraphMap<u32, i32, $Ty>>::new());
         }
     };
 }
@@ -862,6 +1259,7 @@ macro_rules! matrix_like {
                 let qs: Vec<_> = g.node_identifiers().collect();
                 ctx.line(&format!("base {}", ctor), &table!(&g, &qs[..], &no_qe[..], sym));
             }
+            let mut snap = g.clone();
             let pl = plan(rng);
             let nops = pl.len();
             let mid = rng.below(nops);
@@ -905,13 +1303,19 @@ macro_rules! matrix_like {
                 };
                 let qs: Vec<_> = g.node_identifiers().collect();
                 ctx.line(&format!("base {}", op), &table!(&g, &qs[..], &no_qe[..], sym));
+                {
+                    let (cov, verdict) = laws!(&g, &qs[..], sym);
+                    ctx.line(&format!("law base {} {}", op.split(' ').next().unwrap_or("?"), cov), &verdict);
+                }
                 if step == mid && step + 1 != nops {
                     views!(ctx, rng, &g, &qs[..], &no_qe[..], sym, $d, true, false);
+                    snap = g.clone();
                 }
             }
             let qs: Vec<_> = g.node_identifiers().collect();
             views!(ctx, rng, &g, &qs[..], &no_qe[..], sym, $d, true, true);
             mutview!(ctx, g, &qs[..], &no_qe[..], sym);
+            std_laws!(ctx, "matrix", g, snap, &qs[..], &no_qe[..], sym, M::default(), M::with_capacity(0));
         }
     };
 }
@@ -923,6 +1327,7 @@ macro_rules! csr_like {
         fn $fname(ctx: &mut Ctx, rng: &mut Rng, case: u64) {
             ctx.raw(&format!("case {} csr {} {}", case, if $d { "d" } else { "u" }, dbg_word()));
             let (mut g, op0): (Csr<i32, i32, $Ty, u32>, String) = $init(rng);
+            let mut snap = g.clone();
             let no_qe: Vec<usize> = Vec::new();
             {
                 let qs: Vec<u32> = g.node_identifiers().collect();
@@ -951,13 +1356,19 @@ macro_rules! csr_like {
                 };
                 let qs: Vec<u32> = g.node_identifiers().collect();
                 ctx.line(&format!("base {}", op), &table!(&g, &qs[..], &no_qe[..], false));
+                {
+                    let (cov, verdict) = laws!(&g, &qs[..], false);
+                    ctx.line(&format!("law base {} {}", op.split(' ').next().unwrap_or("?"), cov), &verdict);
+                }
                 if step == mid && step + 1 != nops {
                     views!(ctx, rng, &g, &qs[..], &no_qe[..], false, $d, $d, false);
+                    snap = g.clone();
                 }
             }
             let qs: Vec<u32> = g.node_identifiers().collect();
             views!(ctx, rng, &g, &qs[..], &no_qe[..], false, $d, $d, true);
             mutview!(ctx, g, &qs[..], &no_qe[..], false);
+            std_laws!(ctx, "csr", g, snap, &qs[..], &no_qe[..], false, <Csr<i32, i32, $Ty, u32>>::default(), <Csr<i32, i32, $Ty, u32>>::new());
         }
     };
 }
@@ -999,6 +1410,7 @@ fn run_list(ctx: &mut Ctx, rng: &mut Rng, case: u64) {
     use petgraph::data::Build;
     ctx.raw(&format!("case {} list d {}", case, dbg_word()));
     let mut g: adj::List<i32, u32> = adj::List::new();
+    let mut snap = g.clone();
     let no_qe: Vec<adj::EdgeIndex<u32>> = Vec::new();
     {
         let qs: Vec<u32> = g.node_identifiers().collect();
@@ -1040,14 +1452,30 @@ fn run_list(ctx: &mut Ctx, rng: &mut Rng, case: u64) {
         };
         let qs: Vec<u32> = g.node_identifiers().collect();
         ctx.line(&format!("base {}", op), &table!(&g, &qs[..], &no_qe[..], false));
+        {
+            let (cov, verdict) = laws!(&g, &qs[..], false);
+            ctx.line(&format!("law base {} {}", op.split(' ').next().unwrap_or("?"), cov), &verdict);
+        }
         if step == mid && step + 1 != nops {
             views!(ctx, rng, &g, &qs[..], &no_qe[..], false, true, true, false);
+            snap = g.clone();
+        }
+        if step % 3 == 0 || step + 1 == nops {
+            let mut res: Vec<(String, [String; 3])> = Vec::new();
+            li!(res, "node_indices", conv(g.node_indices(), |n: u32| n.to_string()));
+            li!(res, "edge_indices", conv(g.edge_indices(), |e: adj::EdgeIndex<u32>| e.e(false).to_string()));
+            for a in qs.iter() {
+                li!(res, format!("edge_indices_from({})", a), conv(g.edge_indices_from(*a), |e: adj::EdgeIndex<u32>| e.e(false).to_string()));
+            }
+            let (cov, verdict) = law_summary(&res);
+            ctx.line(&format!("law inherent list {}", cov), &verdict);
         }
     }
     let qs: Vec<u32> = g.node_identifiers().collect();
     views!(ctx, rng, &g, &qs[..], &no_qe[..], false, true, true, true);
     frozen_owned!(ctx, g, &qs[..], &no_qe[..], false);
     mutview!(ctx, g, &qs[..], &no_qe[..], false);
+    std_laws!(ctx, "list", g, snap, &qs[..], &no_qe[..], false, <adj::List<i32, u32>>::default(), <adj::List<i32, u32>>::new());
     {
         let mut qn = qs.clone();
         qn.push(g.node_count() as u32 + rng.below(2) as u32);
